@@ -71,7 +71,17 @@ func (m *M) checkLocatorShape(inst *Inst, tip *model.Node, loc [][32]byte, mx in
 	// chain passes through has its first header on the best chain.
 	counted := 0
 	for _, n := range best {
-		isBase := n.Height <= inst.floor || (n.Parent != nil && len(acceptedChildren(inst, n.Parent)) >= 2)
+		// (siblings that a Load dropped from the model's obligation set may still be tracked by
+		// the instance: the set is a lower bound, so they count as siblings here)
+		siblings := 0
+		if n.Parent != nil {
+			for _, c := range n.Parent.Children {
+				if inst.acc[c] || inst.forgot[c] {
+					siblings++
+				}
+			}
+		}
+		isBase := n.Height <= inst.floor || siblings >= 2
 		if !isBase {
 			counted++
 		}
